@@ -49,6 +49,21 @@ def make_profile(rng, tier="quick"):
     p["fault"] = {k: (not fault_free) and rng.random() < 0.5 for k in FAULT_KINDS}
     p["prefix_const_prob"] = rng.choice([0, 0, 0.05])
     p["builtin_solver_prob"] = rng.choice([0.0, 0.3, 0.6])
+    if tier == "thorough":
+        p["depth"] = rng.choice([1, 2, 2, 3, 3, 4])
+        p["fan"] = rng.choice([2, 3, 4, 5])
+        p["nleaves"] = rng.choice([3, 4, 5, 6, 8, 10])
+        p["nmodels"] = rng.choice([1, 2, 2, 3, 4, 6])
+        # soak session: one long-lived worker, a large population of configurators (cache pressure: more than
+        # 128 distinct cache keys would be needed to evict a default-sized LRU), many near-twins
+        p["soak"] = rng.random() < 0.04
+        if p["soak"]:
+            p["nops"] = rng.choice([300, 500, 700])
+            p["nmodels"] = rng.choice([40, 80, 140])
+            p["cfg_prob"] = 0.9
+            p["twin_prob"] = 0.5
+            p["alias_prob"] = 0.2
+            p["depth"] = rng.choice([1, 2])
     return p
 
 
@@ -67,6 +82,7 @@ class Gen:
         self.fired = {}       # fault kind -> count (as generated into the program)
         self.events = []      # abstract event log for coverage signature
         self.skipped = {}
+        self.hits = {}
         self.dead = set()     # handles on which the built-in solver hung: never handed to it again
         self.leafb = {}
         fam = BOUNDS_FAMILIES[self.p["bounds_family"]]
@@ -102,6 +118,7 @@ class Gen:
             self.dead.add(op.get("h"))
             return None
         self.refs.append(ref)
+        self.probe(op, ref)
         if isinstance(ref, dict) and "obj" in ref:
             name = op.get("h") if op["op"] in ("new", "restore") else op.get("out")
             if name:
@@ -109,6 +126,67 @@ class Gen:
         if isinstance(ref, dict) and ref.get("iter") and op.get("out"):
             self.its[op["out"]] = k
         return ref
+
+    def hit(self, name, n=1):
+        self.hits[name] = self.hits.get(name, 0) + n
+
+    def probe(self, op, ref):
+        """reach probes: what actually *happened* (in the pristine reference of the op), not what was configured"""
+        if not isinstance(ref, dict):
+            return
+        a = op.get("a") or {}
+        exc = ref.get("exc")
+        if op["op"] == "call":
+            items = a.get("i") or []
+            if any(isinstance(v, list) and v and v[0] in ("bad", "badf", "none") or
+                   (isinstance(v, list) and v and v[0] == "t" and v[1] > v[2]) for _, v in items):
+                self.hit("abort-arg:raised" if exc else "abort-arg:swallowed")
+            if isinstance(a.get("out"), dict):
+                if exc and exc[1] == "_CallbackAbort":
+                    self.hit("abort-callback:raised")
+                    if a["out"]["raise_at"] > 1:
+                        self.hit("abort-callback:after>=1-node-visited")
+                else:
+                    self.hit("abort-callback:not-reached")
+            H = self.handles.get(op.get("h"))
+            if items and H and H.get("info"):
+                comps = H["info"]["comps"]
+                if any(k in comps for k, _ in items):
+                    self.hit("interp-names-compound-id-of-target")
+                elif any(k != "zz" and k not in H["info"]["leaves"] for k, _ in items):
+                    self.hit("interp-names-id-of-related-object")
+            if exc and not items:
+                self.hit("library-exception:" + exc[1])
+        for s in ref.get("seam") or []:
+            self.hit("solver-called")
+            spec = a.get("solver") or {}
+            if spec.get("mode") == "raise":
+                self.hit("solver-raise:fired")
+            ans = s.get("answers") or []
+            if any(x[0] is None for x in ans):
+                self.hit("solver-none:fired")
+            if spec.get("lazy"):
+                self.hit("solver-lazy:fired")
+            if spec.get("status") is not None and ans:
+                self.hit("solver-status:fired")
+            if spec.get("vectype") and ans:
+                self.hit("solver-vectype:fired")
+            if spec.get("mode") == "exact" and any(x[2] == 5 for x in ans):
+                self.hit("solver-exact:optimum-found")
+            if spec.get("mode") == "exact" and any(x[2] == 4 for x in ans):
+                self.hit("solver-exact:infeasible")
+        if op["op"] in ("next", "drain"):
+            self.hit("lazy-result-consumed-later")
+            if exc:
+                self.hit("lazy-result-raised-on-consumption")
+        if op["op"] == "drop":
+            self.hit("lazy-result-abandoned")
+        if op["op"] == "restore":
+            self.hit("restore")
+        if op["op"] == "call" and op["m"] == "add":
+            self.hit("add:refused" if (exc or ref.get("must_raise")) else ("add:ungated" if ref.get("ungated") else "add:accepted"))
+        if op["op"] == "call" and uses_builtin(op) and not exc:
+            self.hit("builtin-solver-answered")
 
     def register(self, name, dump, op, meta):
         if isinstance(dump, dict) and dump.get("k") == "poly":
@@ -618,6 +696,10 @@ class Gen:
         return False
 
 
+def uses_builtin(op):
+    return engine.uses_builtin_solver(op)
+
+
 STATE_BEARING = {"names-compound", "abort-arg", "abort-callback"}
 STATE_METHODS = {"ge_polyhedron", "select", "leafs", "add", "solve", "to_ge_polyhedron", "assume", "negate",
                  "reduce", "json_rt", "b64_rt", "to_b64", "to_json"}
@@ -680,6 +762,14 @@ def gen_c09(rng, oracle, run_index, tier="quick"):
         if g.step_iterators():
             n += 1
             continue
+        if p.get("soak") and rng.random() < 0.05:
+            try:
+                if rng.random() < 0.5 and g.order:
+                    g.twin(rng.choice([h for h in g.order if g.handles[h]["kind"] != "poly"]))
+                else:
+                    g.new_model()
+            except RuntimeError:
+                pass
         forced = None
         if n >= pol_at and not done_pol:
             forced = ("pol", first, pol)
@@ -730,7 +820,7 @@ def gen_c09(rng, oracle, run_index, tier="quick"):
         if rng.random() < 0.5:
             g.emit({"op": "drain", "it": it})
     meta = {"profile": {k: v for k, v in p.items()}, "triple": [pol, obs, rel], "fired": g.fired,
-            "events": g.events, "skipped": g.skipped}
+            "events": g.events, "skipped": g.skipped, "hits": g.hits}
     return g.ops, g.refs, meta
 
 
